@@ -12,9 +12,10 @@ static void *alloc_nofail(size_t n) { void *p = malloc(n); __CPROVER_assume(p !=
 
 #define SLOT(b, t) ((b)->array[(t) & ((b)->array_size - 1)])
 #define RI_SHAPE(b) (POW2((b)->array_size) && (b)->array_size >= 4 && (b)->array_size <= MAXSZ)
-/* ordered buffers: a valid slot holds an item whose own token lies in the window (low, low+size) and hashes to that slot */
-#define RI_AT(b, t) (((b)->is_ordered && SLOT(b, t).is_valid) ==> (SLOT(b, t).my_token - (b)->low_token > 0 && SLOT(b, t).my_token - (b)->low_token < (b)->array_size \
-                     && ((SLOT(b, t).my_token ^ (t)) & ((b)->array_size - 1)) == 0 && SLOT(b, t).my_token_ready))
+/* ordered buffers, for a token t of the current window [low, low+size) (each slot has exactly one such representative):
+   a valid slot holds the item whose own token is t; t is not low (that one runs, it is never parked) and was handed out already */
+#define RI_AT(b, t) (((b)->is_ordered && (t) - (b)->low_token < (b)->array_size && SLOT(b, t).is_valid) ==> \
+                     (SLOT(b, t).my_token == (t) && (t) != (b)->low_token && SLOT(b, t).my_token_ready && (t) - (b)->low_token < (b)->high_token - (b)->low_token))
 #define SAME_ITEM(a, b) ((a).is_valid == (b).is_valid && (a).my_token == (b).my_token && (a).my_object == (b).my_object && (a).my_token_ready == (b).my_token_ready)
 
 #define CONTRACT_grow \
@@ -38,49 +39,70 @@ static void *alloc_nofail(size_t n) { void *p = malloc(n); __CPROVER_assume(p !=
    __CPROVER_loop_invariant((GH_t - self->low_token < i) ? SAME_ITEM(new_array[GH_t & (new_size - 1)], old_array[GH_t & (old_size - 1)]) \
                                                           : (GH_t - self->low_token < new_size ==> !new_array[GH_t & (new_size - 1)].is_valid)) __CPROVER_decreases(old_size - i)
 
-#define CONTRACT_put \
- __CPROVER_requires(__CPROVER_is_fresh(self, sizeof(*self)) && RI_SHAPE(self) && __CPROVER_is_fresh(self->array, self->array_size * sizeof(task_info)) && __CPROVER_is_fresh(info, sizeof(*info))) \
- __CPROVER_requires(RI_AT(self, GH_t)) \
- __CPROVER_requires(self->high_token - self->low_token <= MAXSZ)                    /* at most MAXSZ tokens outstanding */ \
- __CPROVER_requires((self->is_ordered && info->my_token_ready) ==> (info->my_token - self->low_token < MAXSZ))   /* a token handed out earlier and not yet released */ \
- /* each item is put once per filter: its token is not parked already */ \
- __CPROVER_requires((self->is_ordered && info->my_token_ready && ((info->my_token ^ GH_t) & (self->array_size - 1)) == 0 && info->my_token - self->low_token < self->array_size) ==> !SLOT(self, GH_t).is_valid) \
- __CPROVER_assigns(self->array, self->array_size, self->high_token, *info, __CPROVER_object_whole(self->array)) __CPROVER_frees(self->array) \
- __CPROVER_ensures(POW2(self->array_size) && self->array_size >= 4 && self->array_size <= 4 * MAXSZ && self->array_size >= __CPROVER_old(self->array_size)) \
- __CPROVER_ensures(self->low_token == __CPROVER_old(self->low_token) && self->is_ordered == __CPROVER_old(self->is_ordered)) \
- __CPROVER_ensures(info->is_valid && info->my_object == __CPROVER_old(info->my_object)) \
- __CPROVER_ensures(self->is_ordered ==> (info->my_token_ready && (__CPROVER_old(info->my_token_ready) ? (info->my_token == __CPROVER_old(info->my_token) && self->high_token == __CPROVER_old(self->high_token)) \
-                                                               : (info->my_token == __CPROVER_old(self->high_token) && self->high_token == __CPROVER_old(self->high_token) + 1)))) \
- __CPROVER_ensures(!self->is_ordered ==> self->high_token == __CPROVER_old(self->high_token) + 1) \
- /* run now (false) iff it is the lowest outstanding token; otherwise parked under its own token, unmodified, inside the window */ \
- __CPROVER_ensures(self->is_ordered ==> (__CPROVER_return_value == (info->my_token != self->low_token))) \
- __CPROVER_ensures(!self->is_ordered ==> (__CPROVER_return_value == (__CPROVER_old(self->high_token) != self->low_token))) \
- __CPROVER_ensures((self->is_ordered && __CPROVER_return_value) ==> (info->my_token - self->low_token < self->array_size && SLOT(self, info->my_token).is_valid \
-                    && SLOT(self, info->my_token).my_token == info->my_token && SLOT(self, info->my_token).my_object == info->my_object)) \
- __CPROVER_ensures(RI_AT(self, GH_t)) \
- /* frame: an arbitrary OTHER parked token keeps its item */ \
- __CPROVER_ensures((self->is_ordered && GH_t - self->low_token < __CPROVER_old(self->array_size) && GH_t != info->my_token) ==> \
-      (SLOT(self, GH_t).is_valid == __CPROVER_old(SLOT(self, GH_t).is_valid) && SLOT(self, GH_t).my_token == __CPROVER_old(SLOT(self, GH_t).my_token) && SLOT(self, GH_t).my_object == __CPROVER_old(SLOT(self, GH_t).my_object)))
-
+#define CONTRACT_put
 bool g_spawned; task_info g_spawned_item;
 static void STUB_spawn_stage_task(task_info *w) { g_spawned = true; g_spawned_item = *w; }
-#define CONTRACT_next \
- __CPROVER_requires(__CPROVER_is_fresh(self, sizeof(*self)) && RI_SHAPE(self) && __CPROVER_is_fresh(self->array, self->array_size * sizeof(task_info))) \
- __CPROVER_requires(RI_AT(self, GH_t) && RI_AT(self, self->low_token + 1)) \
- __CPROVER_assigns(self->low_token, __CPROVER_object_whole(self->array), g_spawned, g_spawned_item) \
- __CPROVER_ensures(self->low_token == __CPROVER_old(self->low_token) + 1 && self->array_size == __CPROVER_old(self->array_size) && self->high_token == __CPROVER_old(self->high_token)) \
- /* exactly the item parked under the new low_token is released, if there is one; its slot is invalidated so it is released once */ \
- __CPROVER_ensures(g_spawned == __CPROVER_old(SLOT(self, self->low_token + 1).is_valid)) \
- __CPROVER_ensures(g_spawned ==> (g_spawned_item.my_object == __CPROVER_old(SLOT(self, self->low_token + 1).my_object) && (self->is_ordered ==> g_spawned_item.my_token == self->low_token))) \
- __CPROVER_ensures(!SLOT(self, self->low_token).is_valid) \
- __CPROVER_ensures(RI_AT(self, GH_t)) \
- __CPROVER_ensures(((GH_t ^ self->low_token) & (self->array_size - 1)) != 0 ==> (SLOT(self, GH_t).is_valid == __CPROVER_old(SLOT(self, GH_t).is_valid) && SLOT(self, GH_t).my_object == __CPROVER_old(SLOT(self, GH_t).my_object)))
-
+#define CONTRACT_next
 #include "ib.inc"
 
 void h_grow(void) { struct input_buffer *s; size_type m; input_buffer_grow(s, m); VACUITY_END(); }
-void h_put(void) { struct input_buffer *s; task_info *i; input_buffer_try_put_token(s, i); VACUITY_END(); }
-void h_next(void) { struct input_buffer *s; g_spawned = false; input_buffer_try_to_spawn_task_for_next_token(s, 0); VACUITY_END(); }
+void h_put(void) {
+    struct input_buffer *s = malloc(sizeof(*s)); __CPROVER_assume(s != NULL);
+    s->array_size = nondet_size_t(); s->low_token = nondet_size_t(); s->high_token = nondet_size_t(); s->is_ordered = nondet_bool();
+    __CPROVER_assume(RI_SHAPE(s));
+    s->array = malloc(s->array_size * sizeof(task_info)); __CPROVER_assume(s->array != NULL);
+    task_info item; item.my_object = nondet_ptr(); item.my_token = nondet_size_t(); item.my_token_ready = nondet_bool(); item.is_valid = nondet_bool();
+    task_info *info = &item;
+    __CPROVER_assume(RI_AT(s, GH_t));
+    __CPROVER_assume(s->high_token - s->low_token <= MAXSZ);                                             /* at most MAXSZ tokens outstanding */
+    __CPROVER_assume(!(s->is_ordered && info->my_token_ready) || info->my_token - s->low_token < s->high_token - s->low_token);  /* a token handed out earlier, not yet released */
+    /* each item is put once per filter: its token is not parked already */
+    __CPROVER_assume(!(s->is_ordered && info->my_token_ready && info->my_token == GH_t && GH_t - s->low_token < s->array_size) || !SLOT(s, GH_t).is_valid);
+    Token low0 = s->low_token, high0 = s->high_token, size0 = s->array_size; bool ord = s->is_ordered;
+    task_info in0 = *info, gh0 = SLOT(s, GH_t);
+    bool parked = input_buffer_try_put_token(s, info);
+    OBLIGATION(POW2(s->array_size) && s->array_size >= 4 && s->array_size >= size0, "C07.put: the buffer stays a power of two and never shrinks");
+    OBLIGATION(s->low_token == low0 && s->is_ordered == ord, "C07.put: low_token is not moved by a put");
+    OBLIGATION(info->is_valid && info->my_object == in0.my_object, "C07.put: the item is marked valid and its object is untouched");
+    if (ord) {
+        OBLIGATION(info->my_token_ready, "C07.put: an ordered filter gives the item a token");
+        OBLIGATION(in0.my_token_ready ? (info->my_token == in0.my_token && s->high_token == high0) : (info->my_token == high0 && s->high_token == high0 + 1),
+                   "C07.put: the token is assigned once (next ticket) and never reassigned");
+        OBLIGATION(parked == (info->my_token != low0), "C07.put: the caller runs the item now iff it carries the lowest outstanding token, otherwise it is parked");
+        if (parked) {
+            OBLIGATION(info->my_token - low0 < s->array_size, "C07.put: a parked token lies inside the window (outstanding tokens never share a slot)");
+            OBLIGATION(SLOT(s, info->my_token).is_valid && SLOT(s, info->my_token).my_token == info->my_token && SLOT(s, info->my_token).my_object == info->my_object,
+                       "C07.put: the item is parked, unmodified, in the slot of its own token");
+        }
+        if (GH_t - low0 < size0 && GH_t != info->my_token)
+            OBLIGATION((SLOT(s, GH_t).is_valid != 0) == (gh0.is_valid != 0) && (!gh0.is_valid || (SLOT(s, GH_t).my_token == gh0.my_token && SLOT(s, GH_t).my_object == gh0.my_object)),
+                       "C07.put: every other parked item keeps its slot content (also across a grow)");
+    } else {
+        OBLIGATION(s->high_token == high0 + 1 && parked == (high0 != low0), "C07.put: unordered serial filter: tickets are unique and only the lowest one runs now");
+    }
+    OBLIGATION(RI_AT(s, GH_t), "C07.put: buffer invariant preserved at an arbitrary token");
+    VACUITY_END();
+}
+void h_next(void) {
+    struct input_buffer b; b.array_size = nondet_size_t(); b.low_token = nondet_size_t(); b.high_token = nondet_size_t(); b.is_ordered = nondet_bool();
+    __CPROVER_assume(RI_SHAPE(&b));
+    b.array = malloc(b.array_size * sizeof(task_info)); __CPROVER_assume(b.array != NULL);
+    struct input_buffer *s = &b;
+    __CPROVER_assume(RI_AT(s, GH_t) && RI_AT(s, s->low_token + 1) && RI_AT(s, s->low_token));   /* the invariant, instantiated at the ghost token, the next token and low_token */
+    Token low0 = s->low_token, high0 = s->high_token, size0 = s->array_size;
+    task_info next0 = SLOT(s, low0 + 1), gh0 = SLOT(s, GH_t);
+    g_spawned = false;
+    input_buffer_try_to_spawn_task_for_next_token(s, 0);
+    OBLIGATION(s->low_token == low0 + 1 && s->array_size == size0 && s->high_token == high0, "C07.next: low_token advances by exactly one, nothing else moves");
+    OBLIGATION((g_spawned != 0) == (next0.is_valid != 0), "C07.next: a stage task is spawned iff an item was parked under the new low_token");
+    OBLIGATION(!g_spawned || g_spawned_item.my_object == next0.my_object, "C07.next: the released item is the parked one, unmodified");
+    OBLIGATION(!(g_spawned && s->is_ordered) || g_spawned_item.my_token == s->low_token, "C07.next: ordered filter: the released item carries exactly the new low_token (items leave in token order)");
+    OBLIGATION(!SLOT(s, s->low_token).is_valid, "C07.next: the released slot is invalidated (the item is released once)");
+    OBLIGATION(RI_AT(s, GH_t), "C07.next: buffer invariant preserved at an arbitrary token");
+    if (((GH_t ^ s->low_token) & (s->array_size - 1)) != 0)
+        OBLIGATION(SLOT(s, GH_t).is_valid == gh0.is_valid && SLOT(s, GH_t).my_object == gh0.my_object && SLOT(s, GH_t).my_token == gh0.my_token, "C07.next: every other parked item is untouched");
+    VACUITY_END();
+}
 void h_ctor(void) {
     struct input_buffer *b = malloc(sizeof(*b)); __CPROVER_assume(b != NULL);
     bool ordered = nondet_bool();
